@@ -9,6 +9,6 @@ require (
 	pgregory.net/rapid v1.3.0
 )
 
-require github.com/pip-services3-gox/pip-services3-commons-gox v1.0.8 // indirect
+require github.com/pip-services3-gox/pip-services3-commons-gox v1.0.8
 
 replace github.com/pip-services3-gox/pip-services3-expressions-gox => /repo
